@@ -659,9 +659,9 @@ CRASHES:
 		}
 		// (4) handlers
 		type hview struct {
-			name     string
-			before   []told
-			after    []told
+			name      string
+			before    []told
+			after     []told
 			finalMap  map[string]alert.Level
 			topic     string
 			diskTopic string
